@@ -38,6 +38,8 @@ import gen_mhfin
 gen_mhfin.main([os.path.join(b, "src"), vlib.LEAN])
 import gen_mhinit
 gen_mhinit.main([os.path.join(b, "src"), vlib.LEAN])
+import gen_rollstep
+gen_rollstep.main([os.path.join(b, "src"), vlib.LEAN])
 import gen_murmur
 gen_murmur.main([os.path.join(b, "src"), vlib.LEAN])
 
